@@ -257,13 +257,23 @@ def gen_facts(treehash, config):
                 exp = os.path.join(tmp, label + '.rs')
                 with open(exp, 'w') as f:
                     r = subprocess.run(cmd + ['--', '-Zunpretty=expanded'], cwd=cwd, env=env, stdout=f, stderr=subprocess.PIPE, text=True)
-                if r.returncode != 0:
-                    sys.stderr.write(r.stderr[-4000:])
-                    raise BuildFailed('expansion of %s failed (%s)' % (label, config), r.stderr)
+                failed = r.returncode != 0
+                if failed:
+                    # a definition the derive rejects expands to compile_error!: rustc still prints the expansion and
+                    # then fails.  Keep the expansion (rejected definitions are reported by the rules); anything
+                    # else (no expansion at all) is an infrastructure failure.
+                    with open(os.path.join(out, label + '.stderr'), 'w') as f:
+                        f.write(r.stderr[-8000:])
+                    if os.path.getsize(exp) == 0:
+                        sys.stderr.write(r.stderr[-4000:])
+                        raise BuildFailed('expansion of %s failed (%s)' % (label, config), r.stderr)
                 with open(os.path.join(out, label + '.jsonl'), 'w') as f:
-                    r = subprocess.run([GENSCAN_BIN, exp, label], stdout=f, stderr=subprocess.PIPE, text=True)
-                if r.returncode != 0:
-                    sys.stderr.write(r.stderr[-2000:])
+                    r2 = subprocess.run([GENSCAN_BIN, exp, label], stdout=f, stderr=subprocess.PIPE, text=True)
+                if r2.returncode != 0:
+                    sys.stderr.write(r2.stderr[-2000:])
+                    if failed:
+                        sys.stderr.write(r.stderr[-4000:])
+                        raise BuildFailed('expansion of %s failed (%s)' % (label, config), r.stderr)
                     raise RuntimeError('genscan failed on %s' % label)
                 index.append(label)
             log('gen', config, '%d targets %.1fs' % (len(jobs), time.time() - t0))
